@@ -3,7 +3,7 @@
    likewise REST histories executed through rest.NewRestTester (harness/auth/verif_c12_rest_test.go) on Rest.v.
 
    The external functions are instantiated by Instance.XC. *)
-From SG Require Export Base.Prelude Base.Bytes C12.AuthN C12.Instance C12.Rest.
+From SG Require Export Base.Prelude Base.Bytes C12.AuthN C12.Instance C12.Rest C12.Epoch.
 Open Scope N_scope.
 
 Definition err_eqb (a b : err) : bool :=
@@ -42,6 +42,10 @@ Definition rout_eqb (a b : rout) : bool :=
 
 Inductive case :=
 | CRun (capacity : N) (ops : list op) (observed : list out)
+(* a history with, after EVERY operation, the SessionUUID read from the stored document of the user named in [probe]
+   (the user the operation was about), interned as in Epoch.v: None = no such user, Some 0 = the EMPTY SessionUUID,
+   Some k = the k-th distinct non-empty SessionUUID seen in this history *)
+| CRunE (capacity : N) (ops : list op) (observed : list out) (probe : list N) (uuids : list (option N))
 (* a REST history and the responses the real handlers gave (status codes; for authenticated requests: who the
    handler ran as, or the reason of the 401) *)
 | CRest (capacity : N) (ops : list rop) (observed : list rout).
@@ -50,6 +54,10 @@ Inductive case :=
 Definition check (c : case) : bool :=
   match c with
   | CRun capacity ops observed => list_eqb out_eqb (outs XC (init XC capacity) ops) observed
+  | CRunE capacity ops observed probe uuids =>
+      list_eqb out_eqb (outs XC (init XC capacity) ops) observed &&
+      (N.of_nat (length probe) =? N.of_nat (length ops)) &&
+      list_eqb (option_eqb N.eqb) (intern (epochs XC (init XC capacity) ops probe)) uuids
   | CRest capacity ops observed => list_eqb rout_eqb (rest_outs XC (rinit XC capacity) ops) observed
   end.
 
